@@ -692,6 +692,15 @@ func (a *Authenticator) handleSessionResumption(ctx context.Context, sessionID s
 	// not be resumed: naming its id would otherwise hand the requester the
 	// session's identity and authentication status on a plaintext stream.
 	// Treat it exactly like an unknown session.
+	// A session this process negotiated as a CLIENT of some other server is not a
+	// session of our server side: its cached policy records OUR identity and
+	// authentication status at that server, and the peer naming it was never
+	// authenticated by us. Resuming it would hand the requester our own identity.
+	// Treat it exactly like an unknown session.
+	if ok && sessionIsClientSide(entry) {
+		slog.Info(fmt.Sprintf("🔐 SERVER: Session %s is a client-side record, refusing to resume", redactSessionID(sessionID)), "destination", "cedar")
+		ok = false
+	}
 	if ok && !sessionHasUsableKey(entry) {
 		slog.Info(fmt.Sprintf("🔐 SERVER: Session %s has no usable key, refusing to resume", redactSessionID(sessionID)), "destination", "cedar")
 		ok = false
@@ -814,6 +823,21 @@ func (a *Authenticator) handleSessionResumption(ctx context.Context, sessionID s
 	slog.Info(fmt.Sprintf("🔐 SERVER: Successfully resumed session %s", redactSessionID(sessionID)), "destination", "cedar")
 
 	return negotiation, nil
+}
+
+// attrClientSideSession marks, in a cached session's policy, the record the client
+// half of a handshake stores (storeClientSession).
+const attrClientSideSession = "CedarClientSideSession"
+
+// sessionIsClientSide reports whether a cached session is the client-side record of a
+// session this process negotiated with another server.
+func sessionIsClientSide(entry *SessionEntry) bool {
+	if p := entry.Policy(); p != nil {
+		if v, ok := p.EvaluateAttrBool(attrClientSideSession); ok {
+			return v
+		}
+	}
+	return false
 }
 
 // sessionHasUsableKey reports whether a cached session carries a key that
@@ -1412,6 +1436,11 @@ func (a *Authenticator) storeClientSession(negotiation *SecurityNegotiation, dur
 	// Record whether the session was actually authenticated (as storeSession does on
 	// the server) so a later resumption can be held to a REQUIRED authentication policy.
 	_ = policy.Set("Authenticated", negotiation.Authentication)
+	// This is the CLIENT-side record of the session: Authenticated and User describe
+	// this endpoint as the server saw it, not the peer. Mark it so the server side of
+	// the same process (which shares the cache) never resumes it for an inbound
+	// connection -- see handleSessionResumption.
+	_ = policy.Set(attrClientSideSession, true)
 	// Store User information for session resumption
 	if negotiation.User != "" {
 		_ = policy.Set("User", negotiation.User)
@@ -1443,8 +1472,13 @@ func (a *Authenticator) storeClientSession(negotiation *SecurityNegotiation, dur
 	// Create session entry with remote address (using sinful string)
 	entry := NewSessionEntry(negotiation.SessionId, serverAddr, keyInfo, policy, expiration, lease, a.config.SecurityTag)
 
-	// Store in cache
-	cache.Store(entry)
+	// Store in cache -- unless this very cache already holds the SERVER-side record of
+	// the same session (client and server of the session live in one process and share
+	// the cache): that record is the one an inbound resumption must find, and it carries
+	// the same key, so the client side rides it too instead of replacing it.
+	if existing, ok := cache.Lookup(negotiation.SessionId); !ok || sessionIsClientSide(existing) {
+		cache.Store(entry)
+	}
 
 	// Map commands to this session (using sinful string as key)
 	if negotiation.ValidCommands != "" {
